@@ -36,9 +36,16 @@ def gen_specs(rng, case):
             if "DT" in kinds and rng.random() < 0.5:
                 e = ["+", e, ["*", ["s", rng.choice(["DT", "DTc"])], gen.C(2)]]
             if grid in ("control", "control-") and rng.random() < 0.15:
-                e = [e[0], e[1], gen.add_offsets(rng, e[2], p=0.5, offs=(-1, 1, 2))]
+                e = [e[0], e[1], gen.add_offsets(rng, e[2], p=0.5, offs=(-1, 1, 2), extra=("DT", "DTc", "t"))]
             exprs.append(e)
         specs.append({"grid": grid, "rows": r, "cols": c, "exprs": exprs})
+    if case["method"]["N"] >= 2 and (case["method"].get("grid") or {}).get("class", "Uniform") != "Uniform" and rng.random() < 0.7:
+        # step lengths seen THROUGH an offset (next(DT_control), prev(DT), next(t)): on a non-uniform grid they are those of
+        # the shifted node, not of the node the sample is taken at
+        x0 = ["s", "x", 0]
+        specs.append({"grid": "control", "rows": 1, "cols": 1,
+                      "exprs": [["+", ["+", x0, ["off", 1, ["s", "DTc"], "next"]],
+                                 ["*", ["+", ["off", -1, ["s", "DT"], "prev"], ["off", 1, ["s", "t"], "next"]], gen.C(2)]]]})
     if case.get("algebraics"):
         # algebraic variables on every grid (their values at integrator points come from the step's own helper values)
         from ..cases import nslots
